@@ -662,6 +662,13 @@ func genLink(t *rapid.T) LinkCase {
 	if code > 3 {
 		code = 3
 	}
+	if rapid.IntRange(0, 15).Draw(t, "tooNarrow") == 0 {
+		// a name that is too long for the chosen length field by 0..2 bytes: the encoder has to refuse it (or, were it to
+		// accept it, the decoders have to return the same name)
+		code = uint8(rapid.IntRange(0, 1).Draw(t, "narrowCode"))
+		n := (1 << (8 << code)) + rapid.IntRange(0, 2).Draw(t, "over")
+		c.Name = Blob{Kind: c.Name.Kind, N: n, Seed: c.Name.Seed}
+	}
 	c.Flags = code
 	if rapid.Bool().Draw(t, "hasCOrder") {
 		c.Flags |= core.LinkFlagCreationOrderBit
@@ -697,6 +704,9 @@ func classifyLink(c LinkCase) (bool, []string) {
 	if c.Flags&core.LinkFlagLinkTypeFieldBit == 0 {
 		labels = append(labels, "implicit_hard")
 	}
+	if ls := 1 << (c.Flags & 3); ls < 8 && uint64(c.Name.N) >= uint64(1)<<(8*ls) {
+		labels = append(labels, "name_too_long_for_length_field")
+	}
 	return c.Name.N > 0 && (c.Addr != 0 || c.Path.N > 0 || c.File.N > 0), labels
 }
 
@@ -705,9 +715,7 @@ func runLink(c LinkCase) vt.Verdict {
 		return vt.Skipped("outside the generated domain")
 	}
 	lenSize := 1 << (c.Flags & 3)
-	if lenSize < 8 && uint64(c.Name.N) >= uint64(1)<<(8*lenSize) {
-		return vt.Skipped("name does not fit the chosen length field")
-	}
+	tooNarrow := lenSize < 8 && uint64(c.Name.N) >= uint64(1)<<(8*lenSize)
 	var r result
 	sb := c.SB.sb()
 	in := &core.LinkMessage{Version: 1, Flags: c.Flags, Name: c.Name.String()}
@@ -741,6 +749,9 @@ func runLink(c LinkCase) vt.Verdict {
 		return vt.Skipped("unknown link type")
 	}
 	enc, err := core.EncodeLinkMessage(in, sb)
+	if err != nil && tooNarrow {
+		return vt.Pass() // refused: the name does not fit the chosen length field
+	}
 	if err != nil {
 		return vt.Bad("EncodeLinkMessage refused a %s link (flags %#x, name %d bytes): %v", c.Type, c.Flags, c.Name.N, err)
 	}
